@@ -140,8 +140,11 @@ class Check:
                     for key in getattr(cx, "_seen", ()):
                         if isinstance(key, tuple) and key[0] == "atom" and "!" not in key[1] and not key[1].startswith("const_"):
                             auto_hint += [z3.Real(f"cos!{key[1]}") == 1, z3.Real(f"sin!{key[1]}") == 0, z3.Real(key[1]) == 0]
-                    cov = Obl(f"{tag}.cover@p{k}", facts + list(c.cover_hint(cfg, inputs)), z3.BoolVal(False), kind="cover", expect="sat", contract=c, cfg=cfg, clause=f"{tag}.cover", tactics=())
-                    cov.retry_hyps = facts + auto_hint + list(c.cover_hint(cfg, inputs))
+                    # vacuity query: requires + path condition + quantifier-free library facts must be satisfiable.  Quantified facts
+                    # (definitions of Skolem functions such as the per-index sqrt) are left out: they are consistent by construction
+                    facts_qf = [f for f in facts if not _has_quantifier(f)]
+                    cov = Obl(f"{tag}.cover@p{k}", facts_qf + list(c.cover_hint(cfg, inputs)), z3.BoolVal(False), kind="cover", expect="sat", contract=c, cfg=cfg, clause=f"{tag}.cover", tactics=())
+                    cov.retry_hyps = facts_qf + auto_hint + list(c.cover_hint(cfg, inputs))
                     self.obls.append(cov)
                     if out[0] == "return":
                         try:
@@ -427,6 +430,19 @@ class Check:
                 print(f"VIOLATION property={self.prop} replay={v['replay']}" + (" no-failing-input-found" if v["no_input"] else ""))
             return 1
         return 0
+
+
+def _has_quantifier(e):
+    stack, seen = [e], set()
+    while stack:
+        x = stack.pop()
+        if x.get_id() in seen:
+            continue
+        seen.add(x.get_id())
+        if z3.is_quantifier(x):
+            return True
+        stack.extend(x.children())
+    return False
 
 
 def _syms(e, acc, seen):
